@@ -196,7 +196,9 @@ static void se_print(const parquet_schema_element_t* e) {
 static parquet_key_value_t* kvs_to_c(const mv* a, int32_t* n) {
     if (a->k != 'a') { g_bad = 1; *n = 0; return NULL; }
     *n = (int32_t)a->n;
-    if (a->n == 0) return NULL;
+    /* an empty list is a NULL pointer or, every other time, a pointer to a 0-byte object with count 0 */
+    static unsigned empties;
+    if (a->n == 0) return (++empties & 1) ? NULL : palloc_exact(0);
     parquet_key_value_t* kv = palloc_exact(a->n * sizeof *kv);
     for (size_t i = 0; i < a->n; i++) { kv[i].key = sstr(a->ch[i], 0); kv[i].value = sstr(a->ch[i], 1); }
     return kv;
@@ -444,6 +446,16 @@ int main(void) {
             else if (!strcmp(op, "wset") && h_ntok == 3) thrift_write_set_begin(&e, atoi(h_tok[1]), (int32_t)shex(h_tok[2]));
             else if (!strcmp(op, "wuuid") && h_ntok == 2) { size_t n; void* base; uint8_t* p = h_unhex(h_tok[1], &n, 0, &base); if (n == 16) thrift_write_uuid(&e, p); free(base); }
             else if (!strcmp(op, "wmap") && h_ntok == 4) thrift_write_map_begin(&e, atoi(h_tok[1]), atoi(h_tok[2]), (int32_t)shex(h_tok[3]));
+            else if (!strcmp(op, "wlevel") && h_ntok == 3) {
+                /* k struct begins then j struct ends: the nesting level afterwards and the bytes */
+                int k = atoi(h_tok[1]), j = atoi(h_tok[2]);
+                for (int i = 0; i < k; i++) thrift_write_struct_begin(&e);
+                for (int i = 0; i < j; i++) thrift_write_struct_end(&e);
+                if (e.status == CARQUET_OK) {
+                    printf("OK "); h_puthex(carquet_buffer_data_const(&buf), carquet_buffer_size(&buf)); printf(" %d\n", e.nesting_level);
+                    carquet_buffer_destroy(&buf); fflush(stdout); continue;
+                }
+            }
             else if (!strcmp(op, "wnest") && h_ntok == 2) {
                 /* n struct begins, then n struct ends */
                 int n = atoi(h_tok[1]);
@@ -480,6 +492,12 @@ int main(void) {
             }
             else if (!strcmp(op, "rlist")) { thrift_type_t et; int32_t c; thrift_read_list_begin(&d, &et, &c); snprintf(out, sizeof out, "%d %d", (int)et, (int)c); }
             else if (!strcmp(op, "rmap")) { thrift_type_t kt, vt; int32_t c; thrift_read_map_begin(&d, &kt, &vt, &c); snprintf(out, sizeof out, "%d %d %d", (int)kt, (int)vt, (int)c); }
+            else if (!strcmp(op, "rlevel") && h_ntok == 5) {
+                /* after the set-up (level begins): j struct ends; the nesting level afterwards */
+                int j = atoi(h_tok[4]);
+                for (int i = 0; i < j; i++) thrift_read_struct_end(&d);
+                snprintf(out, sizeof out, "%d", d.nesting_level);
+            }
             else if (!strcmp(op, "rset")) { thrift_type_t et; int32_t c; thrift_read_set_begin(&d, &et, &c); snprintf(out, sizeof out, "%d %d", (int)et, (int)c); }
             else if (!strcmp(op, "ruuid")) {
                 uint8_t* u = malloc(16); thrift_read_uuid(&d, u);
